@@ -14,8 +14,9 @@ class Ctx:
     def __init__(self, repo: str = "/repo") -> None:
         self.u = Universe(repo)
         self.r = Resolver(self.u)
-        self._defs: Dict[str, Defs] = {}
-        self._cfg: Dict[str, CFG] = {}
+        self._defs: Dict[Any, Defs] = {}
+        self._cfg: Dict[Any, CFG] = {}
+        self._inlined: Dict[str, FuncInfo] = {}
         self._rule_stack: List[str] = []
         self._rule_cache: Dict[Tuple[str, str, str], Any] = {}
         self._rule_tainted: set = set()
@@ -53,14 +54,25 @@ class Ctx:
 
     # ------------------------------------------------------------ caches
     def defs(self, fn: FuncInfo) -> Defs:
-        if fn.key not in self._defs:
-            self._defs[fn.key] = Defs(fn)
-        return self._defs[fn.key]
+        key = (fn.key, id(fn.node))  # an inlined view shares the key of its function but not its AST
+        if key not in self._defs:
+            self._defs[key] = Defs(fn)
+        return self._defs[key]
 
     def cfg(self, fn: FuncInfo) -> CFG:
-        if fn.key not in self._cfg:
-            self._cfg[fn.key] = build_cfg(fn.node, lambda raised, caught, fn=fn: self.exc_matches(fn, raised, caught))
-        return self._cfg[fn.key]
+        key = (fn.key, id(fn.node))
+        if key not in self._cfg:
+            self._cfg[key] = build_cfg(fn.node, lambda raised, caught, fn=fn: self.exc_matches(fn, raised, caught))
+        return self._cfg[key]
+
+    def inlined(self, fn: FuncInfo) -> FuncInfo:
+        """*fn* with small same-module helpers spliced in (engine/inline.py); *fn* itself when nothing was spliced."""
+        from .inline import inlined
+
+        if fn.key not in self._inlined:
+            view = inlined(self, fn)
+            self._inlined[fn.key] = view if getattr(view, "inlined_helpers", 0) else fn
+        return self._inlined[fn.key]
 
     # ---------------------------------------------------------- expansion
     def xexpand(self, fn: FuncInfo, expr: ast.AST, depth: int = 3, stop: Iterable[str] = ()) -> ast.AST:
@@ -98,6 +110,17 @@ class Ctx:
                 if callee.module.external or callee.is_async or callee is fn or any(isinstance(n, (ast.Yield, ast.YieldFrom)) for n in own_nodes(callee.node)):
                     return node
                 body = [s for s in callee.node.body if not is_log_call(s)]
+                # a guard helper: every return hands back one and the same parameter, everything else tests and
+                # raises (def _community_creds(c): if isinstance(c, V2C): return c; raise ...) - identity on that argument
+                g_rets = [n for n in own_nodes(callee.node) if isinstance(n, ast.Return)]
+                if g_rets and all(isinstance(r.value, ast.Name) and r.value.id in callee.params for r in g_rets) and len({r.value.id for r in g_rets}) == 1:
+                    pname = g_rets[0].value.id
+                    plain = all(isinstance(s, (ast.If, ast.Raise, ast.Return, ast.Assert)) for s in body)
+                    rebinds = any(isinstance(n, ast.Name) and n.id == pname and isinstance(n.ctx, ast.Store) for n in own_nodes(callee.node))
+                    if plain and not rebinds:
+                        gb = bind_call_args(node, callee.params, skip_self=callee.cls is not None and bool(callee.params) and callee.params[0] in ("self", "cls"))
+                        if pname in gb:
+                            return clone(gb[pname])
                 if not body or not isinstance(body[-1], ast.Return) or body[-1].value is None:
                     return node
                 if not all(isinstance(s, (ast.Assign, ast.AnnAssign)) and isinstance((s.targets[0] if isinstance(s, ast.Assign) else s.target), ast.Name) for s in body[:-1]):
@@ -241,8 +264,11 @@ class Ctx:
 
     def methods_awaiting_attr(self, cls: ClassInfo, attr: str) -> List[FuncInfo]:
         """Methods of *cls* that call ``self.<attr>(...)``."""
+        return self.methods_awaiting_attr_in(cls.methods.values(), attr)
+
+    def methods_awaiting_attr_in(self, methods: Iterable[FuncInfo], attr: str) -> List[FuncInfo]:
         out = []
-        for meth in cls.methods.values():
+        for meth in methods:
             for node in own_nodes(meth.node):
                 if (
                     isinstance(node, ast.Call)
@@ -291,8 +317,23 @@ class Ctx:
         return None
 
     def send_method(self) -> FuncInfo:
-        """The sender-calling method that takes (pdu, request id): the seam used by all operations."""
-        cands = [c for c in self.send_methods() if self.send_signature(c)]
+        """
+        The sender-calling method that takes (pdu, request id): the seam used by all operations.  When the call of
+        the sender sits in a small helper of the class (``await self._transmit(payload)``) the result is the seam
+        with that helper spliced in (an inlined view with the seam's own key).
+        """
+        direct = self.send_methods()
+        cands = [c for c in direct if self.send_signature(c)]
+        if not cands:
+            cls = self.client()
+            for meth in cls.methods.values():
+                if meth in direct or not self.send_signature(meth):
+                    continue
+                calls_direct = any(isinstance(n, ast.Call) and any(c in direct for c in self.r.callees(meth, n) if isinstance(c, FuncInfo)) for n in own_nodes(meth.node))
+                if calls_direct:
+                    view = self.inlined(meth)
+                    if any(v.key == view.key for v in self.methods_awaiting_attr_in([view], self.sender_attr())):
+                        cands.append(view)
         if len(cands) != 1:
             raise AnalysisError(f"expected exactly one (pdu, request-id) sender-calling method on Client, found {[c.qualname for c in cands]}")
         return cands[0]
